@@ -105,3 +105,36 @@ Example C15_build_example :
   let s' := build_versions c T [] (init c) in
   que s' = [1] /\ todo (getn (ns s') 1) = [1; 2] /\ todo (getn (ns s') 0) = [].
 Proof. vm_compute. repeat split; reflexivity. Qed.
+
+(* ---- the persisted side: what shelve.versions() hands to build.
+   (Model/Catalogue.v: versions; names fully qualified, no Import: the order
+   half above has its own `ver`.)  A value row of the catalogue whose chain of
+   parent ids resolves -- value -> state vector -> algorithm -> task, as
+   util.append writes it -- is listed with exactly the names and versions it was
+   registered with: util.dissect inverts util.construct on names without ':' ---- *)
+From DV Require Model.Catalogue Model.Store Proofs.CatalogueProofs Proofs.DissectProofs.
+
+Theorem C15_dissect_inverts_construct : forall n p v,
+  DV.Proofs.CatalogueProofs.plain n ->
+  DV.Model.Catalogue.dissect (DV.Model.Catalogue.construct n (Some p) (Some v)) = Some (Some p, n, Some v).
+Proof. exact DV.Proofs.DissectProofs.dissect_construct. Qed.
+Print Assumptions C15_dissect_inverts_construct.
+
+Theorem C15_persisted_listed : forall c vk x vn s vv sn a sv an k av tn,
+  In (vk, x) (DV.Model.Catalogue.t_value c) ->
+  vk = DV.Model.Catalogue.construct vn (Some s) (Some vv) ->
+  DV.Proofs.CatalogueProofs.plain vn -> DV.Proofs.CatalogueProofs.plain sn ->
+  DV.Proofs.CatalogueProofs.plain an -> DV.Proofs.CatalogueProofs.plain tn ->
+  nth_error (DV.Model.Catalogue.i_state c) s = Some (DV.Model.Catalogue.construct sn (Some a) (Some sv)) ->
+  nth_error (DV.Model.Catalogue.i_alg c) a = Some (DV.Model.Catalogue.construct an (Some k) (Some av)) ->
+  nth_error (DV.Model.Catalogue.i_task c) k = Some tn ->
+  In (Some (tn, an, sn, vn, av, sv, vv)) (DV.Model.Catalogue.versions c).
+Proof. exact DV.Proofs.DissectProofs.versions_lists. Qed.
+Print Assumptions C15_persisted_listed.
+
+(* non-vacuity: after registering an identity its row is listed (names as code points) *)
+Example C15_persisted_example :
+  let id := DV.Model.Store.mkid [116] [97] (1, 2, 0)%Z [115] (1, 0, 0)%Z [118] (3, 0, 1)%Z in
+  DV.Model.Catalogue.versions (DV.Model.Store.register DV.Model.Catalogue.cat0 id)
+  = [Some ([116], [97], [115], [118], (1, 2, 0)%Z, (1, 0, 0)%Z, (3, 0, 1)%Z)].
+Proof. vm_compute. reflexivity. Qed.
